@@ -31,7 +31,7 @@ for t in funcs:
 pm = {}
 for p, n in notes.items():
     fl = list(dict.fromkeys(funcs.get(p, []) + n.get('extra_functions', [])))
-    if not fl:
+    if not fl and 'effects' not in n:
         continue
     e = {k: v for k, v in n.items() if k != 'extra_functions'}
     e['functions'] = fl
